@@ -279,6 +279,15 @@ def prefixSuccessor (p : Bytes) : Option Bytes :=
   | [] => none
   | b :: rest => some (rest.reverse ++ [b + 1])
 
+/-- insertion sort (structural recursion, so that concrete runs reduce in the kernel) -/
+def insertBy {α : Type} (le : α → α → Bool) (a : α) : List α → List α
+  | [] => [a]
+  | b :: bs => if le a b then a :: b :: bs else b :: insertBy le a bs
+
+def isort {α : Type} (le : α → α → Bool) : List α → List α
+  | [] => []
+  | a :: as => insertBy le a (isort le as)
+
 /-- Keys the bounded iterator visits: `IteratorMode::From(prefix, Forward)` with `iterate_upper_bound`. -/
 def inIterRange (p : Bytes) (ub : Option Bytes) (k : Key) : Bool :=
   lexLe p k && (match ub with | some u => lexLt k u | none => true)
@@ -287,7 +296,7 @@ def inIterRange (p : Bytes) (ub : Option Bytes) (k : Key) : Bool :=
 def rocksScan (st : RocksSt) (p : Bytes) : List (Key × Val) × Nat :=
   if p.isEmpty then ([], st.laIndex) else
   let ub := prefixSuccessor p
-  let visited := (st.db.filter fun kv => inIterRange p ub kv.1).mergeSort (fun a b => lexLe a.1 b.1)
+  let visited := isort (fun a b => lexLe a.1 b.1) (st.db.filter fun kv => inIterRange p ub kv.1)
   (visited.takeWhile fun kv => startsWith kv.1 p, st.laIndex)
 
 /-! ## sequences of chunks -/
